@@ -32,9 +32,9 @@ LEVEL = {
                     'Flush makes disk = view and keeps view and length; on the handle model: a fresh Open after Sync fetches what the live handle fetches, and for every history and every abandonment point the disk is '
                     'the state of the last Sync. Composed: a 12-byte slot write through the buffer is putPointAt on the archives of the viewed image and leaves the disk alone, a slot read returns the stored point, '
                     'and Flush followed by Open on the disk bytes returns exactly the header and archives the handle showed. '
-                    'The code is compared after every operation (file bytes vs last-sync snapshot, second-handle fetches, a waiting opener) and for failing CLI writes.',
+                    'The code is compared after every operation (file bytes vs last-sync snapshot, second-handle fetches, a waiting opener), for failing CLI writes, and for handles that cannot write (what Sync acknowledges must be what a second handle reads).',
             'design_ref': '5 C05',
-            'note': _TB + 'Process death is modelled as dropping the handle with an intact kernel; power loss / fsync durability is outside the model.'},
+            'note': _TB + 'Process death is modelled as dropping the handle with an intact kernel; power loss / fsync durability is outside the model, and so are failing writes: the filebuffer dependency drops the error of a failed pwritev, so the OS writes of Sync are assumed to succeed (handles that cannot write at all -- read-only flag, unwritable file -- are exercised by the rosync / unwritable operations).'},
     'C14': {'text': 'Theorems for every encodable object and every remainder: decode(encode x ++ r) = (x, r); for every proper prefix the decoder '
                     'answers Want n with |prefix| < n <= |message| (scalars, point, point list, series, header); concatenated messages decode in sequence.',
             'design_ref': '5 C14',
@@ -56,7 +56,7 @@ LEVEL = {
                     'write logs): for every destination content a history of updates can produce, every valid layout, clock of the domain, window, archive selection and NaN mode and every '
                     'well-formed source list (the one read from any such source file is), a copy that reports success leaves a destination which, opened afresh, answers the same fetch with '
                     'series of the same ranges whose difference from the source is empty - slot by slot the source value wherever it is to be copied (C08_empty_difference_slotwise); a second '
-                    'copy is a no-op (C08_repeat_copy_changes_nothing) and diff is clean (C08_then_diff_is_clean). The real CopyCommand is run against the model on every run.',
+                    'copy is a no-op (C08_repeat_copy_changes_nothing) and diff is clean (C08_then_diff_is_clean). GLOB MODE (Model/World.v, the loop the harness runs is the extracted run_copies): when no file is both source and destination, a run over any list of matched files that reports success has done for EVERY file exactly the single-file copy on the files as they were and changed no other file (C08_glob_copies_every_matched_file); a failing run stopped at the first file whose copy fails alone and left the later destinations untouched (C08_glob_stops_at_first_failure). The real CopyCommand is run against the model on every run, including a glob run whose later source is written while the first file is being copied.',
             'design_ref': '5 C08',
             'note': _TB + 'Commands read the wall clock; the harness recovers the clock from the command output. filepath.Glob is an oracle.'},
     'C09': {'text': 'Theorems: the listing is exactly the filter of the differing slots (in slot order, both values); clean iff no slot differs; value equality is NaN-aware '
@@ -70,7 +70,7 @@ LEVEL = {
     'C11': {'text': 'Theorems: sum-copy is copy_core applied to the sum with NaN copying (so C08/C10 theorems apply), sum-diff is diff_core on the sum; a destination equal to the sum is clean; '
                     'failure leaves an existing destination untouched. END TO END (C11_sumcopy_stores_the_sum): the sum of files that histories of updates can produce is a well-formed list '
                     '(C11_sum_lists_are_well_formed), and after a sum-copy that reports success the destination, opened afresh, holds in every slot of every selected window a value equal to '
-                    'the sum\'s (NaN where the sum is NaN) and sum-diff over the same window is clean.',
+                    'the sum\'s (NaN where the sum is NaN) and sum-diff over the same window is clean. SEVERAL ITEMS (extracted run_sum_copies): a successful sum-copy did for every matched item what the one-item command does on the files as they were (C11_every_item_is_sum_copied); the sum-diff verdict over items is run_diffs (C09 theorems).',
             'design_ref': '5 C11', 'note': _TB},
     'C12': {'text': 'Theorems: the view/sum and view-raw responses decode to exactly the header and series/point lists the handler encoded; the empty body is the not-exist answer; '
                     'a text error body never decodes as a header. Request side: for every byte string used as a value (file names with + & % = ; # space, non-ASCII) the query the client builds with QueryEscape '
